@@ -290,8 +290,9 @@ def h_read_current(use_sp: bool, when: int, also_write: bool, storage: str) -> N
     reached()
 
 
-def h_commit_lock(at: int, storage: str) -> None:
-    """Second writer's whole commit injected at yield point `at` of the first writer's 2PC."""
+def h_commit_lock(at: int, storage: str, same: bool = True) -> None:
+    """Second writer's whole commit injected at yield point `at` of the first writer's 2PC.  same=False: the two write
+    different objects - both commit, and their ids follow the order in which the commits finished."""
     assume(at >= 0)
     with untraced():
         from ZODB.POSException import ConflictError
@@ -309,16 +310,22 @@ def h_commit_lock(at: int, storage: str) -> None:
             base = h.serial[T.oid(1)]
             out = {}
 
+            order = []
+
             def writer(name, data):
                 t = T.meta(name.encode())
                 try:
                     s.tpc_begin(t)
                     sch.point('api')
-                    s.store(T.oid(1), base, data, '', t)
+                    if same:
+                        s.store(T.oid(1), base, data, '', t)
+                    else:
+                        s.store(T.oid(2 if name == 'A' else 3), T.Z64, data, '', t)
                     sch.point('api')
                     s.tpc_vote(t)
                     sch.point('api')
-                    out[name] = s.tpc_finish(t)
+                    # (the callback runs at the commit point, under the storage's lock: the order of the commits)
+                    out[name] = s.tpc_finish(t, lambda tid: order.append(name))
                 except ConflictError:
                     s.tpc_abort(t)
                     out[name] = 'conflict'
@@ -337,6 +344,13 @@ def h_commit_lock(at: int, storage: str) -> None:
             assume('B' in out)            # `at` beyond the last yield point: nothing injected
             note('outcome', '%s/%s' % ('ok' if out['A'] != 'conflict' else 'conflict',
                                          'ok' if out['B'] != 'conflict' else 'conflict'))
+            if not same:
+                check(out['A'] != 'conflict' and out['B'] != 'conflict', 'writers of different objects conflict', out)
+                first, second = order
+                check(out[first] < out[second], 'the commit that finished later got the smaller transaction id', order, out, sch.trace)
+                check(s.lastTransaction() == out[second], 'lastTransaction is not the id of the commit that finished last', order, out)
+                reached()
+                return
             oks = [k for k in ('A', 'B') if out[k] != 'conflict']
             check(len(oks) == 1, 'two writers that started from the same revision both committed (lost update) '
                                  'or none could', out.get('A'), out.get('B'), sch.trace)
